@@ -7,6 +7,8 @@
 //	         seeded random schedules and a recording transport; the observable-only monitor is evaluated
 //	         here, the recorded traces go to TLC (spec/Writer/WriterTrace.tla).
 //	dissolve (C40, T) the real dissolve.Dissolver with self-logging jobs; monitor + traces for DissolveTrace.tla.
+//	dissolve_probe  (C40) deterministic probe: jobs queued at Close never start (GOMAXPROCS(1), confirm by re-execution).
+//	dissolve_stress (C40) single-worker dissolvers, Submit aimed at the moment the worker goes idle; lost wake-up watchdog.
 //	pools    (C42, S) TLC-generated Get/Mutate/Put scripts replayed into internal/bpool and the writer's item
 //	         buffer pool; classes: table of the size-class functions.
 package main
@@ -15,10 +17,12 @@ import "verifharness/vh"
 
 func main() {
 	vh.Main(map[string]vh.Mode{
-		"ring":     ringReplay,
-		"writer":   writerRuns,
-		"dissolve": dissolveRuns,
-		"pools":    poolsReplay,
-		"classes":  classesTable,
+		"ring":            ringReplay,
+		"writer":          writerRuns,
+		"dissolve":        dissolveRuns,
+		"dissolve_probe":  dissolveProbe,
+		"dissolve_stress": dissolveStress,
+		"pools":           poolsReplay,
+		"classes":         classesTable,
 	})
 }
